@@ -186,6 +186,8 @@ def _outcome(text):
         v = eval(text, {'__builtins__': {}}, {})   # text is produced by this harness or by the printer from literal nodes only
     except Exception as e:  # noqa
         return ('raises', type(e).__name__)
+    if isinstance(v, int) and not isinstance(v, bool):
+        return ('value', 'int', format(v, 'x'))      # hexadecimal: decimal repr() refuses ints beyond 4300 digits
     return ('value', type(v).__name__, repr(v))
 
 
